@@ -4,6 +4,7 @@
 -/
 import HpxVerif.Lemmas.BmocOr
 import HpxVerif.Lemmas.BmocPack
+import HpxVerif.Lemmas.CoverWF
 
 namespace Hpx.Bmoc
 
@@ -264,4 +265,284 @@ theorem orLoop_spec (D : Nat) (hD : D ≤ 29) : ∀ (fuel : Nat) (left : Option 
             have h1 : ¬ (l.hash >>> ((l.depth - r.depth) <<< 1) < r.hash) := by omega
             rw [orLoop]; simp only [h0, hd, gt_iff_lt, h1, hh, if_true, if_false, e', Option.map_some]
 
+/-! ## the unpacked result of `or` -/
+
+/-- everything at once: no panic, and the output is a well-formed tiling within `[0, 12·4^D)` denoting the maximum -/
+theorem orCells_spec (D : Nat) (hD : D ≤ 29) (a b : List Cell) (ha : WF D a) (hb : WF D b)
+    (hra : ∀ c ∈ a, InR c) (hrb : ∀ c ∈ b, InR c) :
+    ∃ l, orCellsUnpacked a b = some l ∧
+      Seg D l 0 (12 * 4 ^ D) (fun x => Tri.max (stOf D a x) (stOf D b x)) := by
+  have := orLoop_spec D hD (a.length + b.length + 2) a.head? a.tail b.head? b.tail 0
+    (by rw [rem_head_tail, rem_head_tail]; omega) (by rw [rem_head_tail]; exact ha) (by rw [rem_head_tail]; exact hb)
+    (by rw [rem_head_tail]; exact hra) (by rw [rem_head_tail]; exact hrb) (fun _ _ => Nat.zero_le _)
+    (fun _ _ => Nat.zero_le _) (Nat.zero_le _)
+  rw [rem_head_tail, rem_head_tail] at this
+  exact this
+
+/-- **1. `or` never panics** on well-formed in-range operands (the fuel of the model suffices and the `unwrap` in
+    `not_in_cell_4_or` never fails) -/
+theorem orCells_some (D : Nat) (hD : D ≤ 29) (a b : List Cell) (ha : WF D a) (hb : WF D b)
+    (hra : ∀ c ∈ a, InR c) (hrb : ∀ c ∈ b, InR c) : ∃ l, orCellsUnpacked a b = some l := by
+  obtain ⟨l, e, _⟩ := orCells_spec D hD a b ha hb hra hrb
+  exact ⟨l, e⟩
+
+/-- **3. the result of `or` is well formed and in range** -/
+theorem or_wf (D : Nat) (hD : D ≤ 29) (a b : List Cell) (ha : WF D a) (hb : WF D b)
+    (hra : ∀ c ∈ a, InR c) (hrb : ∀ c ∈ b, InR c) (l : List Cell) (hl : orCellsUnpacked a b = some l) :
+    WF D l ∧ ∀ c ∈ l, InR c := by
+  obtain ⟨l', e, s⟩ := orCells_spec D hD a b ha hb hra hrb
+  rw [hl] at e
+  cases e
+  exact ⟨s.wf, fun c hc => inR_of_hi D c (s.wf.depth_le c hc) (s.inside c hc).2⟩
+
+theorem stOf_abs_beyond {D : Nat} {l : List Cell} (hw : WF D l) (hr : ∀ c ∈ l, InR c) {x : Nat} (hx : 12 * 4 ^ D ≤ x) :
+    stOf D l x = .abs :=
+  stOf_absent_of_ge (fun c hc => Nat.le_trans (hi_le_of_inR (hw.depth_le c hc) (hr c hc)) hx)
+
+/-- **2. three-valued semantics of `or`**: the state of every cell of depth `D` is the maximum of its states in the operands
+    (stated for every `x`; beyond `12·4^D` everything is absent) -/
+theorem or3_sem_all (D : Nat) (hD : D ≤ 29) (a b : List Cell) (ha : WF D a) (hb : WF D b)
+    (hra : ∀ c ∈ a, InR c) (hrb : ∀ c ∈ b, InR c) (l : List Cell) (hl : orCellsUnpacked a b = some l) (x : Nat) :
+    stOf D l x = Tri.max (stOf D a x) (stOf D b x) := by
+  obtain ⟨l', e, s⟩ := orCells_spec D hD a b ha hb hra hrb
+  rw [hl] at e
+  cases e
+  by_cases hx : x < 12 * 4 ^ D
+  · exact s.sem x (Nat.zero_le _) hx
+  · have hx' : 12 * 4 ^ D ≤ x := by omega
+    obtain ⟨w, r⟩ := or_wf D hD a b ha hb hra hrb l hl
+    rw [stOf_abs_beyond w r hx', stOf_abs_beyond ha hra hx', stOf_abs_beyond hb hrb hx']; rfl
+
+theorem or3_sem (D : Nat) (hD : D ≤ 29) (a b : List Cell) (ha : WF D a) (hb : WF D b)
+    (hra : ∀ c ∈ a, InR c) (hrb : ∀ c ∈ b, InR c) (l : List Cell) (hl : orCellsUnpacked a b = some l) :
+    ∀ x, x < 12 * 4 ^ D → stOf D l x = Tri.max (stOf D a x) (stOf D b x) :=
+  fun x _ => or3_sem_all D hD a b ha hb hra hrb l hl x
+
+/-! ## flags from the semantics -/
+
+theorem ofFlag_inj {f g : Bool} (h : Tri.ofFlag f = Tri.ofFlag g) : f = g := by
+  cases f <;> cases g <;> simp [Tri.ofFlag] at h ⊢
+
+theorem ofFlag_ne_abs (f : Bool) : Tri.ofFlag f ≠ .abs := by cases f <;> simp [Tri.ofFlag]
+
+/-- in a well-formed list, the state at the first depth-`D` cell of a member is that member's flag -/
+theorem WF.stOf_self {D : Nat} {l : List Cell} (hw : WF D l) {c : Cell} (hc : c ∈ l) :
+    stOf D l (lo D c) = Tri.ofFlag c.full := by
+  induction l with
+  | nil => simp at hc
+  | cons c0 l ih =>
+    rw [stOf_cons]
+    rcases List.mem_cons.1 hc with rfl | hc
+    · have := lo_lt_hi D c
+      simp [this]
+    · have h1 := hw.2.1 c hc
+      have : ¬ (lo D c0 ≤ lo D c ∧ lo D c < hi D c0) := by omega
+      simp only [this, if_false]
+      exact ih hw.tail hc
+
+theorem stOf_of_all_flag {D : Nat} {l : List Cell} {f : Bool} (h : ∀ c ∈ l, c.full = f) (x : Nat) :
+    stOf D l x = .abs ∨ stOf D l x = Tri.ofFlag f := by
+  induction l with
+  | nil => exact Or.inl rfl
+  | cons c l ih =>
+    rw [stOf_cons]
+    split
+    · exact Or.inr (by rw [h c (by simp)])
+    · exact ih (fun c' hc' => h c' (by simp [hc']))
+
+/-- a well-formed list whose states are only `absent` or the state of flag `f` has flag `f` on every cell -/
+theorem flags_of_sem {D : Nat} {l : List Cell} {f : Bool} (hw : WF D l)
+    (h : ∀ x, stOf D l x = .abs ∨ stOf D l x = Tri.ofFlag f) : ∀ c ∈ l, c.full = f := by
+  intro c hc
+  have h1 := hw.stOf_self hc
+  rcases h (lo D c) with h2 | h2
+  · rw [h1] at h2; exact absurd h2 (ofFlag_ne_abs _)
+  · rw [h1] at h2; exact ofFlag_inj h2
+
+theorem tri_max_of_flag {f : Bool} {s t : Tri} (hs : s = .abs ∨ s = Tri.ofFlag f) (ht : t = .abs ∨ t = Tri.ofFlag f) :
+    Tri.max s t = .abs ∨ Tri.max s t = Tri.ofFlag f := by
+  rcases hs with rfl | rfl <;> rcases ht with rfl | rfl <;> cases f <;> simp [Tri.max, Tri.ofFlag]
+
+/-- **equal-flag corollary** (what the fixed-depth builder needs): if every cell of both operands carries the flag `f`, so
+    does every cell of the result, and the covered set is the union of the covered sets -/
+theorem or_same_flag (D : Nat) (hD : D ≤ 29) (a b : List Cell) (ha : WF D a) (hb : WF D b)
+    (hra : ∀ c ∈ a, InR c) (hrb : ∀ c ∈ b, InR c) (f : Bool) (hfa : ∀ c ∈ a, c.full = f) (hfb : ∀ c ∈ b, c.full = f)
+    (l : List Cell) (hl : orCellsUnpacked a b = some l) :
+    (∀ c ∈ l, c.full = f) ∧ ∀ x, stOf D l x ≠ .abs ↔ (stOf D a x ≠ .abs ∨ stOf D b x ≠ .abs) := by
+  have hs := or3_sem_all D hD a b ha hb hra hrb l hl
+  refine ⟨flags_of_sem (or_wf D hD a b ha hb hra hrb l hl).1 ?_, ?_⟩
+  · intro x
+    rw [hs x]
+    exact tri_max_of_flag (stOf_of_all_flag hfa x) (stOf_of_all_flag hfb x)
+  · intro x
+    rw [hs x, ne_eq, tri_max_eq_abs]
+    tauto
+
+/-- **plain-MOC corollary**: if all flags are `full`, the result is a plain MOC (all flags `full`) and a depth-`D` cell is in
+    the result iff it is in one of the operands -/
+theorem or_moc (D : Nat) (hD : D ≤ 29) (a b : List Cell) (ha : WF D a) (hb : WF D b)
+    (hra : ∀ c ∈ a, InR c) (hrb : ∀ c ∈ b, InR c) (hfa : ∀ c ∈ a, c.full = true) (hfb : ∀ c ∈ b, c.full = true)
+    (l : List Cell) (hl : orCellsUnpacked a b = some l) :
+    (∀ c ∈ l, c.full = true) ∧ ∀ x, stOf D l x = .full ↔ (stOf D a x = .full ∨ stOf D b x = .full) := by
+  refine ⟨(or_same_flag D hD a b ha hb hra hrb true hfa hfb l hl).1, ?_⟩
+  intro x
+  rw [or3_sem_all D hD a b ha hb hra hrb l hl x, tri_max_eq_full]
+
+/-! ## the public operator: `pack` on top, raw entries -/
+
+theorem cells_eq_cellsOf (b : BMOC) : b.cells = cellsOf b.dmax b.entries := rfl
+
+theorem inR_of_validRaw {dm : Nat} (hdm : dm ≤ 29) {l : List Nat} (hv : ∀ r ∈ l, ValidRaw dm r) :
+    ∀ c ∈ cellsOf dm l, InR c := by
+  intro c hc
+  obtain ⟨r, hr, rfl⟩ := List.mem_map.1 hc
+  exact (raw_of_decode hdm (hv r hr) rfl).2.2
+
+/-- **4. `BMOC::or`** on two BMOCs whose cell lists are well formed w.r.t. `D = max(depth_max)` and in range: it does not
+    panic; the result has depth `D`, valid and strictly increasing raw entries, a well-formed in-range cell list, and the
+    state of every depth-`D` cell is the maximum of its states in the operands -/
+theorem bmoc_or_spec (A B : BMOC) (D : Nat) (hmax : max A.dmax B.dmax = D) (hD : D ≤ 29)
+    (hwA : WF D A.cells) (hwB : WF D B.cells) (hrA : ∀ c ∈ A.cells, InR c) (hrB : ∀ c ∈ B.cells, InR c) :
+    ∃ R, BMOC.or A B = some R ∧ R.dmax = D ∧ (∀ r ∈ R.entries, ValidRaw D r) ∧ WF D R.cells ∧
+      (∀ c ∈ R.cells, InR c) ∧ R.entries.Pairwise (· < ·) ∧
+      ∀ x, stOf D R.cells x = Tri.max (stOf D A.cells x) (stOf D B.cells x) := by
+  subst hmax
+  obtain ⟨l, hl⟩ := orCells_some _ hD _ _ hwA hwB hrA hrB
+  obtain ⟨wl, rl⟩ := or_wf _ hD _ _ hwA hwB hrA hrB l hl
+  have hs := or3_sem_all _ hD _ _ hwA hwB hrA hrB l hl
+  obtain ⟨g1, g2, g3, g4⟩ := Hpx.Cover.packed_bmoc_wf (max A.dmax B.dmax) hD l wl rl
+  refine ⟨{ dmax := max A.dmax B.dmax, entries := pack (max A.dmax B.dmax) (l.map (encode (max A.dmax B.dmax))) }, ?_,
+    rfl, g1, g2, inR_of_validRaw hD g1, g3, fun x => ?_⟩
+  · unfold BMOC.or
+    simp only [hl, Option.map_some]
+  · rw [cells_eq_cellsOf]
+    exact (g4 x).trans (hs x)
+
+/-- `BMOC::or` for operands carrying one and the same flag `f`: so does the result; covered set = union -/
+theorem bmoc_or_same_flag (A B : BMOC) (D : Nat) (hmax : max A.dmax B.dmax = D) (hD : D ≤ 29)
+    (hwA : WF D A.cells) (hwB : WF D B.cells) (hrA : ∀ c ∈ A.cells, InR c) (hrB : ∀ c ∈ B.cells, InR c)
+    (f : Bool) (hfA : ∀ c ∈ A.cells, c.full = f) (hfB : ∀ c ∈ B.cells, c.full = f) (R : BMOC) (hR : BMOC.or A B = some R) :
+    (∀ c ∈ R.cells, c.full = f) ∧ ∀ x, stOf D R.cells x ≠ .abs ↔ (stOf D A.cells x ≠ .abs ∨ stOf D B.cells x ≠ .abs) := by
+  obtain ⟨R', e, _, _, w, _, _, hs⟩ := bmoc_or_spec A B D hmax hD hwA hwB hrA hrB
+  rw [hR] at e
+  cases e
+  refine ⟨flags_of_sem w ?_, ?_⟩
+  · intro x
+    rw [hs x]
+    exact tri_max_of_flag (stOf_of_all_flag hfA x) (stOf_of_all_flag hfB x)
+  · intro x
+    rw [hs x, ne_eq, tri_max_eq_abs]
+    tauto
+
+/-- `BMOC::or` on plain MOCs (all flags `full`) is the union, and the result is a plain MOC -/
+theorem bmoc_or_moc (A B : BMOC) (D : Nat) (hmax : max A.dmax B.dmax = D) (hD : D ≤ 29)
+    (hwA : WF D A.cells) (hwB : WF D B.cells) (hrA : ∀ c ∈ A.cells, InR c) (hrB : ∀ c ∈ B.cells, InR c)
+    (hfA : ∀ c ∈ A.cells, c.full = true) (hfB : ∀ c ∈ B.cells, c.full = true) (R : BMOC) (hR : BMOC.or A B = some R) :
+    (∀ c ∈ R.cells, c.full = true) ∧ ∀ x, stOf D R.cells x = .full ↔ (stOf D A.cells x = .full ∨ stOf D B.cells x = .full) := by
+  refine ⟨(bmoc_or_same_flag A B D hmax hD hwA hwB hrA hrB true hfA hfB R hR).1, ?_⟩
+  obtain ⟨R', e, _, _, _, _, _, hs⟩ := bmoc_or_spec A B D hmax hD hwA hwB hrA hrB
+  rw [hR] at e
+  cases e
+  intro x
+  rw [hs x, tri_max_eq_full]
+
+/-- the specification of `or` in the shape used by the fixed-depth builder (`OrSpec` of `Lemmas/BmocBuilder.lean`):
+    operands of the same depth with valid entries and well-formed cell lists -/
+theorem bmoc_or_good (A B : BMOC) (D : Nat) (hD : D ≤ 29) (hA : A.dmax = D) (hB : B.dmax = D)
+    (gA : (∀ r ∈ A.entries, ValidRaw D r) ∧ WF D A.cells) (gB : (∀ r ∈ B.entries, ValidRaw D r) ∧ WF D B.cells) :
+    ∃ R, BMOC.or A B = some R ∧ R.dmax = D ∧ ((∀ r ∈ R.entries, ValidRaw D r) ∧ WF D R.cells) ∧
+      ∀ x, x < 12 * 4 ^ D → stOf D R.cells x = Tri.max (stOf D A.cells x) (stOf D B.cells x) := by
+  have hrA : ∀ c ∈ A.cells, InR c := by
+    rw [cells_eq_cellsOf, hA]; exact inR_of_validRaw hD gA.1
+  have hrB : ∀ c ∈ B.cells, InR c := by
+    rw [cells_eq_cellsOf, hB]; exact inR_of_validRaw hD gB.1
+  obtain ⟨R, e, h1, h2, h3, _, _, h6⟩ := bmoc_or_spec A B D (by rw [hA, hB, Nat.max_self]) hD gA.2 gB.2 hrA hrB
+  exact ⟨R, e, h1, ⟨h2, h3⟩, fun x _ => h6 x⟩
+
+/-! ## operands of different `depth_max`: change of reference depth -/
+
+theorem lo_rebase {d D : Nat} (h : d ≤ D) {c : Cell} (hc : c.depth ≤ d) : lo D c = lo d c * 4 ^ (D - d) := by
+  unfold lo
+  rw [Nat.mul_assoc, ← Nat.pow_add]
+  congr 2; omega
+
+theorem hi_rebase {d D : Nat} (h : d ≤ D) {c : Cell} (hc : c.depth ≤ d) : hi D c = hi d c * 4 ^ (D - d) := by
+  unfold hi
+  rw [Nat.mul_assoc, ← Nat.pow_add]
+  congr 2; omega
+
+/-- a list well formed w.r.t. its own depth is well formed w.r.t. every larger reference depth -/
+theorem WF_rebase {d D : Nat} (h : d ≤ D) {l : List Cell} (hw : WF d l) : WF D l := by
+  induction l with
+  | nil => trivial
+  | cons c l ih =>
+    refine ⟨Nat.le_trans hw.1 h, ?_, ih hw.tail⟩
+    intro c' hc'
+    rw [hi_rebase h hw.1, lo_rebase h (hw.tail.depth_le c' hc')]
+    exact Nat.mul_le_mul_right _ (hw.2.1 c' hc')
+
+/-- the state of a depth-`D` cell is the state of its ancestor at the list's own reference depth -/
+theorem stOf_rebase {d D : Nat} (h : d ≤ D) {l : List Cell} (hdep : ∀ c ∈ l, c.depth ≤ d) (x : Nat) :
+    stOf D l x = stOf d l (x / 4 ^ (D - d)) := by
+  have hk : 0 < 4 ^ (D - d) := Nat.pow_pos (by decide)
+  induction l with
+  | nil => rfl
+  | cons c l ih =>
+    have hc := hdep c (by simp)
+    rw [stOf_cons, stOf_cons, ih (fun c' hc' => hdep c' (by simp [hc'])), lo_rebase h hc, hi_rebase h hc]
+    simp only [Nat.le_div_iff_mul_le hk, Nat.div_lt_iff_lt_mul hk]
+
+/-- **`BMOC::or` for two well-formed BMOCs of any depths `≤ 29`** (each with valid entries and a cell list well formed
+    w.r.t. its own `depth_max`): no panic; the result is a well-formed BMOC of depth `D = max`, and the state of a depth-`D`
+    cell is the maximum of the states of its ancestors in the operands -/
+theorem bmoc_or_general (A B : BMOC) (hA : A.dmax ≤ 29) (hB : B.dmax ≤ 29)
+    (gA : (∀ r ∈ A.entries, ValidRaw A.dmax r) ∧ WF A.dmax A.cells)
+    (gB : (∀ r ∈ B.entries, ValidRaw B.dmax r) ∧ WF B.dmax B.cells) :
+    ∃ R, BMOC.or A B = some R ∧ R.dmax = max A.dmax B.dmax ∧ (∀ r ∈ R.entries, ValidRaw (max A.dmax B.dmax) r) ∧
+      WF (max A.dmax B.dmax) R.cells ∧ R.entries.Pairwise (· < ·) ∧
+      ∀ x, stOf (max A.dmax B.dmax) R.cells x =
+        Tri.max (stOf A.dmax A.cells (x / 4 ^ (max A.dmax B.dmax - A.dmax)))
+          (stOf B.dmax B.cells (x / 4 ^ (max A.dmax B.dmax - B.dmax))) := by
+  have hD : max A.dmax B.dmax ≤ 29 := Nat.max_le.2 ⟨hA, hB⟩
+  have hrA : ∀ c ∈ A.cells, InR c := inR_of_validRaw hA gA.1
+  have hrB : ∀ c ∈ B.cells, InR c := inR_of_validRaw hB gB.1
+  obtain ⟨R, e, h1, h2, h3, _, h5, h6⟩ := bmoc_or_spec A B _ rfl hD (WF_rebase (Nat.le_max_left _ _) gA.2)
+    (WF_rebase (Nat.le_max_right _ _) gB.2) hrA hrB
+  refine ⟨R, e, h1, h2, h3, h5, fun x => ?_⟩
+  rw [h6 x, stOf_rebase (Nat.le_max_left _ _) gA.2.depth_le, stOf_rebase (Nat.le_max_right _ _) gB.2.depth_le]
+
+/-! ## the model on concrete operands (depth 2), and satisfiability of the hypotheses -/
+
+/-- a partial depth-0 cell over a full depth-1 and a full depth-2 cell (then a further cell): partial cells are pushed around
+    the full ones -/
+example : orCellsUnpacked [⟨0, 0, false⟩, ⟨1, 4, true⟩] [⟨1, 1, true⟩, ⟨2, 12, true⟩, ⟨0, 2, false⟩] =
+    some [⟨1, 0, false⟩, ⟨1, 1, true⟩, ⟨1, 2, false⟩, ⟨2, 12, true⟩, ⟨2, 13, false⟩, ⟨2, 14, false⟩, ⟨2, 15, false⟩,
+      ⟨1, 4, true⟩, ⟨0, 2, false⟩] := by decide +kernel
+
+/-- partial sub-cells only: the partial low-resolution cell is kept -/
+example : orCellsUnpacked [⟨0, 0, false⟩] [⟨2, 1, false⟩, ⟨2, 5, false⟩, ⟨0, 1, false⟩] =
+    some [⟨0, 0, false⟩, ⟨0, 1, false⟩] := by decide +kernel
+
+/-- a full low-resolution cell absorbs its sub-cells -/
+example : orCellsUnpacked [⟨2, 1, false⟩, ⟨2, 5, true⟩, ⟨0, 1, false⟩] [⟨0, 0, true⟩] =
+    some [⟨0, 0, true⟩, ⟨0, 1, false⟩] := by decide +kernel
+
+/-- the hypotheses of `orCells_some`, `or3_sem`, `or_wf` hold for these operands (`D = 2`) -/
+example : WF 2 [⟨0, 0, false⟩, ⟨1, 4, true⟩] ∧ WF 2 [⟨1, 1, true⟩, ⟨2, 12, true⟩, ⟨0, 2, false⟩] ∧
+    (∀ c ∈ [(⟨0, 0, false⟩ : Cell), ⟨1, 4, true⟩], InR c) ∧
+    (∀ c ∈ [(⟨1, 1, true⟩ : Cell), ⟨2, 12, true⟩, ⟨0, 2, false⟩], InR c) := by
+  simp [WF, InR, lo, hi]
+
 end Hpx.Bmoc
+
+#print axioms Hpx.Bmoc.orCells_some
+#print axioms Hpx.Bmoc.or3_sem
+#print axioms Hpx.Bmoc.or3_sem_all
+#print axioms Hpx.Bmoc.or_wf
+#print axioms Hpx.Bmoc.or_same_flag
+#print axioms Hpx.Bmoc.or_moc
+#print axioms Hpx.Bmoc.bmoc_or_spec
+#print axioms Hpx.Bmoc.bmoc_or_same_flag
+#print axioms Hpx.Bmoc.bmoc_or_moc
+#print axioms Hpx.Bmoc.bmoc_or_good
+#print axioms Hpx.Bmoc.bmoc_or_general
